@@ -132,6 +132,7 @@ def register(R):
   SKIP = f'(fails(input_iterator, i) or raises_on({G}, input_iterator.src[i]) or raises_on({Cf}, mapped({G}, input_iterator.src[i])))'
   R.add(Contract(
       f'{TF}::TreeFn._iterate', P, variant='skipping', types=dict(self='TreeFn', input_iterator='iter[obj]', ignore_error='const:True'), ret='iter[obj]',
+      when=lambda it, a, k: 'ignore_error' in k and z3.is_true(z3.simplify(it.truth(k['ignore_error']))),
       setup=_setup_iterate, requires=['self.fn_batch_size == 0', 'self.batch_size == 0'], modifies=['input_iterator'],
       # with error skipping: the outputs of exactly the records that can be read, selected and computed, in order, each once;
       # a failing record is dropped alone - nothing after it is lost
@@ -140,10 +141,32 @@ def register(R):
       bounded='bounded_pipeline_skip'))
   R.add(Contract(
       f'{TF}::TreeFn._iterate', P, variant='not-skipping', types=dict(self='TreeFn', input_iterator='iter[obj]', ignore_error='const:False'), ret='iter[obj]',
+      when=lambda it, a, k: not ('ignore_error' in k and z3.is_true(z3.simplify(it.truth(k['ignore_error'])))),
       setup=_setup_iterate, requires=['self.fn_batch_size == 0', 'self.batch_size == 0'], modifies=[],
       # without error skipping: one output per record, aligned; an error at a record surfaces AT that record, it is never swallowed
       ensures=['len(result.src) == len(input_iterator.src)', 'result.pos == input_iterator.pos',
                f'forall(lambda i: result.src[i] is {VALUE}, 0, len(input_iterator.src))',
+               f'forall(lambda i: implies({SKIP}, fails(result, i)), 0, len(input_iterator.src))'],
+      bounded='bounded_pipeline_skip'))
+
+  # apply (TreeFn.iterate): the record is replaced by the outputs of its own inputs
+  def _setup_apply(flag):
+    def setup(it, env):
+      env['self'].f['ignore_error'] = VBool(flag)
+      _setup_iterate(it, env)
+    return setup
+  OUT = 'self._get_outputs'
+  R.add(Contract(
+      f'{TF}::TreeFn.iterate', P, variant='skipping', types=dict(self='TreeFn', input_iterator='iter[obj]'), ret='iter[obj]',
+      setup=_setup_apply(True), requires=['self.fn_batch_size == 0', 'self.batch_size == 0'], modifies=['input_iterator'],
+      ensures=['len(result.src) == rank(len(input_iterator.src)) - rank(pos0)',
+               f'forall(lambda i: implies(not {SKIP}, result.src[rank(i) - rank(pos0)] is mapped({OUT}, {VALUE})), pos0, len(input_iterator.src))'],
+      bounded='bounded_pipeline_skip', note='apply with error skipping: every record that can be processed yields exactly its own output record, in order'))
+  R.add(Contract(
+      f'{TF}::TreeFn.iterate', P, variant='not-skipping', types=dict(self='TreeFn', input_iterator='iter[obj]'), ret='iter[obj]',
+      setup=_setup_apply(False), requires=['self.fn_batch_size == 0', 'self.batch_size == 0'], modifies=[],
+      ensures=['len(result.src) == len(input_iterator.src)',
+               f'forall(lambda i: result.src[i] is mapped({OUT}, {VALUE}), 0, len(input_iterator.src))',
                f'forall(lambda i: implies({SKIP}, fails(result, i)), 0, len(input_iterator.src))'],
       bounded='bounded_pipeline_skip'))
 
